@@ -302,7 +302,11 @@ impl PeerHandler {
             }
             BroadCmd::SendOwnState { am_choked_map } => {
                 match am_choked_map.get(&self.connection.addr) {
-                    Some(true) => self.connection.send_msg(&Choke::new()).await?,
+                    Some(true) => {
+                        self.connection.send_msg(&Choke::new()).await?;
+                        // Drop loaded piece, so requests sent by choked peer are not served
+                        self.piece_tx = None;
+                    }
                     Some(false) => self.connection.send_msg(&Unchoke::new()).await?,
                     None => (),
                 }
